@@ -5,7 +5,8 @@ Import ListNotations.
 
 (* configuration test guarding a step:  s.Options.GetMaintenance(), s.Options.GetAuth() / .auth and
    their negations; COpaque = a condition on request data the translator does not interpret *)
-Inductive cond := CMaint | CNotMaint | CAuth | CNotAuth | COpaque.
+Inductive cond := CMaint | CNotMaint | CAuth | CNotAuth | COpaque
+| CLastLogin.   (* s.removeUserFromLoginList(user) returned true: the user's login counter reached zero *)
 
 (* one disjunct of a refusal `if !A && !B ... { return error }` (the call proceeds iff A || B || ...) *)
 Inductive chk :=
@@ -24,7 +25,9 @@ Inductive atom :=
 | ATx                      (* s.SessManager.GetTransactionFromContext(ctx) *)
 | ASessID                  (* sessions.GetSessionIDFromContext(ctx) *)
 | ACred                    (* s.getValidatedUser(ctx, user, password): credentials carried by the request *)
+| ATok                     (* auth.DropTokenKeysForCtx(ctx): needs a valid login token in the request *)
 | ACheck (ks : list chk)
+| ASqlRead                 (* Engine.checkUserPermissions for a SELECT; never generated (see Auth/Policy.v) *)
 | ASqlWrite.               (* embedded/sql Engine.checkUserPermissions for a non-read-only statement;
                               never generated, appended by Auth/Policy.v for the SQL exec RPCs *)
 
